@@ -12,6 +12,8 @@ import (
 	"github.com/prometheus/prometheus/tsdb"
 	"github.com/prometheus/prometheus/tsdb/chunkenc"
 
+	"github.com/thanos-io/thanos/pkg/block/metadata"
+	"github.com/thanos-io/thanos/pkg/compact/downsample"
 	"github.com/thanos-io/thanos/pkg/store"
 	"github.com/thanos-io/thanos/pkg/store/storepb"
 	"github.com/thanos-io/thanos/verifharness/hlib"
@@ -54,8 +56,31 @@ func (r *stReq) promRead() (refSeries, error) {
 	if r.mint > r.maxt {
 		return out, nil // an inverted range holds no instant
 	}
+	cfg, _ := parseBucketCfg(r.cfgTok)
+	// which blocks: per set of blocks with equal external labels what bucketBlockSet.getFor selects for the range and
+	// the maximum resolution (C15 is the property about that selection; here it is taken from the real function)
+	selected := map[int]bool{}
+	groups := map[string][]int{}
 	for i, b := range r.b.blocks {
-		if !(b.mint <= r.maxt && r.mint < b.maxt) {
+		k := promLabels(b.ext).String()
+		groups[k] = append(groups[k], i)
+	}
+	for _, idx := range groups {
+		metas := make([]*metadata.Meta, len(idx))
+		for k, i := range idx {
+			m := &metadata.Meta{}
+			m.ULID = blockULID(i)
+			m.MinTime, m.MaxTime = r.b.blocks[i].mint, r.b.blocks[i].maxt
+			m.Thanos.Downsample.Resolution = r.b.blocks[i].res
+			metas[k] = m
+		}
+		_, res := store.VerifStoresBlockSetGetFor(metas, r.mint, r.maxt, int64(cfg.maxRes), nil)
+		for _, k := range res {
+			selected[idx[k]] = true
+		}
+	}
+	for i, b := range r.b.blocks {
+		if !selected[i] {
 			continue
 		}
 		ext := promLabels(b.ext)
@@ -93,7 +118,24 @@ func (r *stReq) promRead() (refSeries, error) {
 				if out[key] == nil {
 					out[key] = map[string]struct{}{}
 				}
-				out[key][fmt.Sprintf("%d/%d/%d/%x", c.MinTime, c.MaxTime, int(c.Chunk.Encoding()), c.Chunk.Bytes())] = struct{}{}
+				if c.Chunk.Encoding() == downsample.ChunkEncAggr {
+					// the aggregates the request asks for, decoded from the aggregated chunk
+					var parts []string
+					for a := 0; a < 5; a++ {
+						if cfg.aggrs&(1<<a) == 0 {
+							continue
+						}
+						sub, err := downsample.AggrChunk(c.Chunk.Bytes()).Get(downsample.AggrType(a))
+						if err != nil {
+							parts = append(parts, aggrNames[a]+"=!"+err.Error())
+							continue
+						}
+						parts = append(parts, fmt.Sprintf("%s=%d:%x", aggrNames[a], int(sub.Encoding()), sub.Bytes()))
+					}
+					out[key][fmt.Sprintf("%d/%d/aggr/%s", c.MinTime, c.MaxTime, strings.Join(parts, ";"))] = struct{}{}
+				} else {
+					out[key][fmt.Sprintf("%d/%d/%d/%x", c.MinTime, c.MaxTime, int(c.Chunk.Encoding()), c.Chunk.Bytes())] = struct{}{}
+				}
 				n++
 			}
 			if err := it.Err(); err != nil {
@@ -139,7 +181,17 @@ func (r *stReq) checkAgainstReader(c *hlib.Ctx, frames []frame, skip bool) {
 			c.Violation("answer-unsorted", fmt.Sprintf("series %s comes after %s", f.lset, frames[i-1].lset))
 		}
 		for j, ch := range f.chunks {
-			got[k][fmt.Sprintf("%d/%d/%d/%x", ch.mint, ch.maxt, encToProm(ch.enc), ch.data)] = struct{}{}
+			if ch.aggr != nil || (ch.data == "" && ch.id < 0) {
+				var parts []string
+				for a := 0; a < 5; a++ {
+					if d, ok := ch.aggr[aggrNames[a]]; ok {
+						parts = append(parts, fmt.Sprintf("%s=%d:%x", aggrNames[a], int(chunkenc.EncXOR), d))
+					}
+				}
+				got[k][fmt.Sprintf("%d/%d/aggr/%s", ch.mint, ch.maxt, strings.Join(parts, ";"))] = struct{}{}
+			} else {
+				got[k][fmt.Sprintf("%d/%d/%d/%x", ch.mint, ch.maxt, encToProm(ch.enc), ch.data)] = struct{}{}
+			}
 			if j > 0 && f.chunks[j-1].mint > ch.mint {
 				c.Violation("answer-unsorted", fmt.Sprintf("chunks of %s are not sorted by min time", f.lset))
 			}
@@ -228,6 +280,9 @@ func execC10(c *hlib.Ctx, tok []string) string {
 		}
 		ans := execC10Series(c, r, tok[7] == "1", false)
 		key := strings.Join(tok[2:], " ")
+		if cfg, err := parseBucketCfg(r.cfgTok); err == nil {
+			key = fmt.Sprintf("x%d a%d %s", cfg.maxRes, cfg.aggrs, key) // resolution and aggregates belong to the request
+		}
 		if prev, ok := c10Seen[key]; ok && prev != ans {
 			c.Violation("answer-depends-on-configuration", fmt.Sprintf("%s answered %.200s, another configuration %.200s", tok[1], ans, prev))
 		}
@@ -356,6 +411,12 @@ func genC10(c *hlib.Ctx) {
 			blocks[1].ext = blocks[0].ext // one series in two blocks
 			c.Count("st:series-in-two-blocks")
 		}
+		// a third of the stores of the thorough tier (a seventh in the quick tier) hold downsampled (5m / 1h aggregate) blocks next to raw ones
+		downsampled := (c.Tier != "quick" && r.Chance(1, 3)) || (c.Tier == "quick" && r.Chance(1, 7))
+		if downsampled {
+			blocks = g.genDownsampled()
+			c.Count("st:downsampled-store")
+		}
 		tb := showBlocks(blocks)
 		var cfgs, lazyCfgs []string
 		for k := 0; k < 8; k++ {
@@ -384,6 +445,8 @@ func genC10(c *hlib.Ctx) {
 					c.Count("matcher:matches-empty")
 				}
 			}
+			xres := pickInt(r, 0, 299999, 300000, 3600000, 3600000, 1<<40)
+			aggrs := 1 | r.Intn(32)
 			// a third of the requests are made for lazy posting expansion: selectors on two or three different stored
 			// labels with values that occur, asked under configurations with lazy expansion on and a tiny series size estimate
 			lazyProne := r.Chance(1, 3)
@@ -396,6 +459,10 @@ func genC10(c *hlib.Ctx) {
 				cfg := cfgs[r.Intn(len(cfgs))]
 				if lazyProne && k < 2 {
 					cfg = lazyCfgs[r.Intn(len(lazyCfgs))]
+				}
+				if downsampled {
+					// resolution and aggregates of the request (count is always asked for: it carries the chunk id)
+					cfg += fmt.Sprintf("+x%d+a%d", xres, aggrs)
 				}
 				line := fmt.Sprintf("st.series %s %s %d %d %s %s %d", cfg, tb, mint, maxt, showMatchers(ms), without, sk)
 				ans := c.Do(line, true)
@@ -430,6 +497,46 @@ func addSeriesOnce(b *specBlock, s specSeries) bool {
 	}
 	b.series = append(b.series, s)
 	return true
+}
+
+// genDownsampled: one or two external label sets whose time line is cut into ranges that are present as raw, 5m and/or
+// 1h blocks (gaps, partial downsampling, a finer block spanning coarser ones), each block with its own series.
+func (g *storeGen) genDownsampled() []specBlock {
+	r := g.r
+	var out []specBlock
+	exts := [][]specLabel{genLabelSet(r, g.extPool, r.Range(1, 2))}
+	if r.Chance(1, 3) {
+		exts = append(exts, genLabelSet(r, g.extPool, r.Range(1, 2)))
+	}
+	for _, ext := range exts {
+		t := int64(r.Intn(30))
+		for i, n := 0, r.Range(1, 3); i < n; i++ {
+			w := int64(r.Range(2, 6)) * 20
+			present := r.Range(1, 7)
+			for k, res := range []int64{0, 300000, 3600000} {
+				if present&(1<<k) == 0 {
+					continue
+				}
+				b := specBlock{ext: ext, mint: t, maxt: t + w, res: res}
+				b.series = g.genSeries(r.Range(1, 6), b.mint, b.maxt)
+				out = append(out, b)
+			}
+			t += w
+			if r.Chance(1, 4) {
+				t += int64(r.Range(5, 40))
+			}
+		}
+		if r.Chance(1, 3) && len(out) > 0 {
+			// a finer block spanning what is there so far
+			b := specBlock{ext: ext, mint: out[0].mint - 5, maxt: t + 5, res: []int64{0, 300000}[r.Intn(2)]}
+			b.series = g.genSeries(r.Range(1, 5), b.mint, b.maxt)
+			out = append(out, b)
+		}
+	}
+	if len(out) > 6 {
+		out = out[:6]
+	}
+	return out
 }
 
 // genLazyProneMatchers: two or three selectors on different stored label names, each with at least one posting.
